@@ -449,11 +449,24 @@ func (b *rawBackend) handle(conn net.Conn) {
 					return
 				}
 				n, _ := strconv.ParseInt(strings.TrimSpace(strings.SplitN(sz, ";", 2)[0]), 16, 64)
-				if _, err := io.CopyN(io.Discard, br, n+2); err != nil && n > 0 {
-					return
-				}
 				if n == 0 {
+					// the trailer section: field lines up to the empty line; what arrives here was sent upstream after the body
+					for {
+						tl, err := br.ReadString('\n')
+						if err != nil {
+							return
+						}
+						tl = strings.TrimRight(tl, "\r\n")
+						if tl == "" {
+							break
+						}
+						k, v, _ := strings.Cut(tl, ":")
+						lines = append(lines, [2]string{k, strings.Trim(v, " \t")})
+					}
 					break
+				}
+				if _, err := io.CopyN(io.Discard, br, n+2); err != nil {
+					return
 				}
 			}
 		} else if cl > 0 {
@@ -733,6 +746,9 @@ func genLines(r *vlib.Rng, rich bool) [][2]string {
 	return lines
 }
 
+// trailerCases: the next stack cases send their body chunked with a trailer section
+var trailerCases bool
+
 func stackCase(c *vlib.Cases, engine string, rt route, failover bool, lines [][2]string, s *stk, target, other *rawBackend) {
 	const host = "olla.test:4040"
 	var sb strings.Builder
@@ -740,7 +756,14 @@ func stackCase(c *vlib.Cases, engine string, rt route, failover bool, lines [][2
 	for _, l := range lines {
 		fmt.Fprintf(&sb, "%s: %s\r\n", l[0], l[1])
 	}
-	fmt.Fprintf(&sb, "Content-Length: %d\r\n\r\n%s", len(rt.body), rt.body)
+	if trailerCases && len(rt.body) > 0 {
+		// a chunked upload with a trailer section (RFC 7230 4.1.2): the fields after the last chunk are not header lines of
+		// the request; whatever the proxy does with them, no credential may reach the backend and no line the client did
+		// not send as a header may appear upstream
+		fmt.Fprintf(&sb, "Transfer-Encoding: chunked\r\nTrailer: Authorization, X-Checksum, Cookie, X-Api-Key\r\n\r\n%x\r\n%s\r\n0\r\nAuthorization: Bearer sk-in-the-trailer\r\nX-Checksum: 9f86d081\r\nCookie: session=in-the-trailer\r\nX-Api-Key: key-in-the-trailer\r\n\r\n", len(rt.body), rt.body)
+	} else {
+		fmt.Fprintf(&sb, "Content-Length: %d\r\n\r\n%s", len(rt.body), rt.body)
+	}
 	target.take()
 	if other != nil {
 		other.take()
@@ -779,7 +802,9 @@ func stackPart(c *vlib.Cases, r *vlib.Rng, thorough bool) {
 			}
 			for _, rt := range byType[typ] {
 				for i := 0; i < perRoute; i++ {
+					trailerCases = i%3 == 2
 					stackCase(c, engine, rt, false, genLines(r, i == 0), s, b, nil)
+					trailerCases = false
 				}
 			}
 			s.stop()
